@@ -226,6 +226,16 @@ impl ColumnParsing {
     pub fn extract(&self, column: &ColumnDefinition, parsing_input: &ParsingInput) -> Value {
         match self {
             ColumnParsing::Regex(pattern) => {
+                // An array column with one listed group is an array of one element
+                if let ValueType::Array(element) = &column.column_type {
+                    let value = ColumnParsing::extract_using_regex(element, parsing_input, pattern, Value::Null);
+                    return if value.is_not_null() {
+                        Value::Array(*element.clone(), vec![value])
+                    } else {
+                        column.default_value()
+                    };
+                }
+
                 ColumnParsing::extract_using_regex(
                     &column.column_type,
                     parsing_input,
